@@ -595,6 +595,8 @@ def eval_int(e, leaf, bits=64):
         return eval_int(e[1], leaf, bits)
     if k == "agg" and e[1] == "adt" and not e[4] and len(e) > 6 and e[6] is not None:
         return e[6]  # a fieldless enum value is its variant index (as its discriminant reads)
+    if k == "agg" and e[1] == "adt" and len(e[4]) == 1:
+        return eval_int(e[4][0], leaf, bits)  # a one-field newtype around a word (`TaggedPtr(NonNull<()>)`) is that word
     if k == "tfield":
         return eval_int(e[1], leaf, bits) if e[2] == 0 else None
     if k == "addr":
